@@ -2,6 +2,7 @@
 import ast
 from pyvc import front, lemma
 
+from shell import replayers
 ID = "C14"
 LEVEL = "proof"
 FUNCTIONS = ["LimitOrderBook.mid_price", "LimitOrderBook.acq_price", "LimitOrderBook.liq_price", "LimitOrderBook.update",
@@ -44,3 +45,7 @@ def lemma_keys(tier):
 
 
 LEMMAS = [lemma_keys]
+
+REPLAYERS = [
+    ("Exchange.process_Event", replayers.exchange_event),
+]
